@@ -45,6 +45,16 @@ def gen_cases(tier, rng):
         for init in (0, 1):
             cases.append('H:f=0 arg:v,verbose:b0:init=%d/card=none arg:c:b1:init=%d/card=none arg:x:b2: %s exp:b0=%d;b1=%d;b2=1'
                          % (init, init, A.argv_tok(w), 1 - init, (1 - init) if nc else init))
+    # a flag whose destination is a std::optional< bool> (outside the model): used, it holds true - whatever it held
+    # before - unless unsetFlag() was called; unused it keeps what it held
+    for init, io in ((None, 'none'), ('1', '1'), ('0', '0')):
+        for w in (['-o'], ['--opt-flag'], ['--opt'], ['-fo'], ['-of'], []):
+            for unset in (False, True):
+                used = any('o' in x for x in w)
+                val = ('0' if unset else '1') if used else io
+                fl = '1' if any(x in ('-fo', '-of') for x in w) else '0'
+                opts = '/'.join(([('init=' + init)] if init else []) + (['unset'] if unset else []))
+                cases.append('H:f=0 arg:o,opt-flag:ob0:%s arg:f:b0:init=0 %s exp:b0=%s;ob0=%s' % (opts, A.argv_tok(w), fl, val))
     # integer destinations of every width: the whole range of the type is representable (outside the model, which
     # has the one integer kind int: judged by the intended values)
     for slot, vals in (('ul0', ['0', '9223372036854775807', '9223372036854775808', '18446744073709551615', '12345678901234567890']),
